@@ -220,9 +220,34 @@ func runC09(r *Run) {
 		r.Sample(s)
 	}
 	// ---- function-ness: every witnessed reduction inside one permutation admits one result --------
-	for _, n := range []uint64{128, 144} {
+	// (quotient widths are read from the hint sites the permutation really executes)
+	widths := map[uint64]bool{}
+	func() {
+		setHooks(fieldHooks())
+		defer clearHooks()
+		api := newAPI(capPlain)
+		defer forgetChips()
+		w := newFieldRun(cur)
+		w.noShapes = true
+		chip := poseidon.NewGoldilocksChip(api)
+		var st poseidon.GoldilocksState
+		for i := range st {
+			st[i] = glIn(fmt.Sprintf("s%d", i))
+		}
+		chip.Poseidon(st)
+		for _, s := range w.sites {
+			if strings.HasPrefix(s.Kind, "Reduce/") {
+				widths[s.N] = true
+			}
+		}
+	}()
+	if len(widths) == 0 {
+		r.Infra("no witnessed reduction found inside the permutation")
+	}
+	for n := range widths {
 		gadgetLemma(r, "witnessed-arith", reduceLeaf(n, false))
 	}
+	r.Extra["quotient_widths_inside_permutation"] = fmt.Sprint(widths)
 	gadgetLemma(r, "witnessed-arith", mulAddLeaves()[0])
 	r.Bounds["values"] = "all canonical state / input values (symbolic)"
 	r.Bounds["sponge_shapes"] = fmt.Sprint(shapes)
